@@ -73,9 +73,10 @@ func (p *PerHost) dialerForRequest(host string) Dialer {
 		return p.def
 	}
 
-	// AddZone and AddHost store names without the trailing dot of a
-	// fully qualified name; compare the dialed name the same way.
-	host = strings.TrimSuffix(host, ".")
+	// AddZone and AddHost store names in lower case (host names are
+	// case-insensitive) and without the trailing dot of a fully
+	// qualified name; compare the dialed name the same way.
+	host = strings.ToLower(strings.TrimSuffix(host, "."))
 	for _, zone := range p.bypassZones {
 		if strings.HasSuffix(host, zone) {
 			return p.bypass
@@ -142,7 +143,7 @@ func (p *PerHost) AddNetwork(net *net.IPNet) {
 // AddZone specifies a DNS suffix that will use the bypass proxy. A zone of
 // "example.com" matches "example.com" and all of its subdomains.
 func (p *PerHost) AddZone(zone string) {
-	zone = strings.TrimSuffix(zone, ".")
+	zone = strings.ToLower(strings.TrimSuffix(zone, "."))
 	if !strings.HasPrefix(zone, ".") {
 		zone = "." + zone
 	}
@@ -151,6 +152,6 @@ func (p *PerHost) AddZone(zone string) {
 
 // AddHost specifies a host name that will use the bypass proxy.
 func (p *PerHost) AddHost(host string) {
-	host = strings.TrimSuffix(host, ".")
+	host = strings.ToLower(strings.TrimSuffix(host, "."))
 	p.bypassHosts = append(p.bypassHosts, host)
 }
